@@ -142,6 +142,7 @@ def doc_param_verdict(p):
 class C16(PropBase):
     id = 'C16'
     partial_passes = 0.25
+    rx_only_passes = 0.4
     lean_modules = ['Isotp.Props.C16']
     theorems = []
     keep_ops = ('layer', 'addr', 'params')
